@@ -304,6 +304,7 @@ fn build<P: Kmer + 'static>(name: &'static str, _env: &Env) -> Vec<Box<dyn Job>>
     .boxed()]
 }
 
+#[cfg(not(fuzzing))]
 pub fn jobs(env: &Env) -> Vec<Box<dyn Job>> {
     let mut out: Vec<Box<dyn Job>> = Vec::new();
     crate::kmers_list!(build, out, env; Kmer2, Kmer3, Kmer4, Kmer4v, Kmer5, Kmer6, Kmer8, Kmer10, Kmer12,
